@@ -55,7 +55,8 @@ def history_obs(cfg):
   for _, key, pos, e in entries:
     out.setdefault(key, []).append(
         [order[id(e)], e.kind.name, hist_value(e.new_value),
-         os.path.basename(e.location.filename), e.location.function_name])
+         os.path.basename(e.location.filename), e.location.function_name,
+         e.location.line_number])
   return [[k, out[k]] for k in sorted(out)]
 
 
@@ -214,3 +215,26 @@ def finish(env: Env):
   """Leaves suspend blocks (so thread-local state is clean for the next run)."""
   while env.suspend:
     env.suspend.pop().__exit__(None, None, None)
+
+
+def op_line_ranges():
+  """op kind -> (first, last) source line of its branch in apply_op."""
+  import inspect
+  import re
+  lines, start = inspect.getsourcelines(apply_op)
+  marks = []
+  for i, line in enumerate(lines):
+    m = re.match(r"\s+if k == '(\w+)':", line)
+    if m:
+      marks.append((m.group(1), start + i))
+    m = re.match(r"\s+if k in \(([^)]*)\):", line)
+    if m:
+      for name in re.findall(r"'(\w+)'", m.group(1)):
+        marks.append((name, start + i))
+  marks.sort(key=lambda t: t[1])
+  out = {}
+  end = start + len(lines)
+  for j, (name, ln) in enumerate(marks):
+    nxt = min([l for _, l in marks[j + 1:] if l > ln] or [end])
+    out[name] = (ln, nxt - 1)
+  return out
